@@ -135,7 +135,7 @@ impl Display for DocumentConfig {
 
 fn is_none_or_default_timeout(timeout: &Option<Duration>) -> bool {
     if let Some(timeout) = timeout {
-        timeout.as_secs() == DEFAULT_DOCUMENT_TIMEOUT
+        *timeout == Duration::from_secs(DEFAULT_DOCUMENT_TIMEOUT)
     } else {
         false
     }
